@@ -617,6 +617,9 @@ class Interp:
                 continue
             done.add(txt)
             self.havoc_target(e, env)
+        # ghost state may be updated inside the loop: havoc it too (invariants re-link it)
+        for g in sorted(k for k in self.ctx.ghost if k != 'sums'):
+            self.ctx.ghost[g] = self.havoc_value(self.ctx.ghost[g], 'ghost_' + g)
         k2 = key if self.frame.fn is self.top_fn else '%s.%s' % (fn, key)
         for path in self.contract.loop_modifies.get(k2, ()):
             self.havoc_target(ast.parse(path, mode='eval').body, env)
@@ -873,6 +876,8 @@ class Interp:
         if isinstance(a, (str, Opaque)) or isinstance(b, (str, Opaque)):
             if isinstance(a, str) and isinstance(b, str) and op == '+':
                 return a + b
+            if op == '+' and isinstance(a, (str, Opaque)) and isinstance(b, (str, Opaque)):
+                return Opaque('fstring')
             if op in ('+', '%') and (isinstance(a, (str, Opaque)) and getattr(a, 'name', 'x') in
                                      ('fstring', 'fmtstring', 'x') or isinstance(a, str)):
                 return Opaque('fstring')
@@ -883,8 +888,9 @@ class Interp:
             return a * b
         if isinstance(a, SObj) or isinstance(b, SObj):
             raise Unsupported('binary operator on object')
-        if op == '/' and not self.ctx.fp and self.frames and getattr(self.contract, 'check_div', False):
-            pass
+        if op == '/' and self.ctx.fp and self.contract is not None and \
+                self.contract.defs.get('fp_div') == 'uf' and (is_fp_term(a) or is_fp_term(b)):
+            return self.ctx.fdiv(to_fp(a), to_fp(b))
         return scalar_arith(op, a, b, self.ctx.fp)
 
     def matmul(self, a, b):
@@ -1616,10 +1622,19 @@ class Interp:
         raise Unsupported('call of %r (%s)' % (fv, ftxt))
 
     def invoke_user(self, mod, cname, fn, args, kwargs, ftxt):
+        r = self._invoke_user(mod, cname, fn, args, kwargs, ftxt)
+        c = self.contract
+        if c is not None and fn.name in c.ghost_on_result:
+            c.ghost_on_result[fn.name](self, None, r)
+        return r
+
+    def _invoke_user(self, mod, cname, fn, args, kwargs, ftxt):
         """Call of a function whose source is in /repo: modular (contract) or inlined."""
         qual = ('%s.%s' % (cname, fn.name)) if cname else fn.name
         target = '%s::%s' % (mod.relpath, qual)
         c = self.contract
+        if c is not None and fn.name in c.ghost_on_call:
+            self.ctx.ghost.update(c.ghost_on_call[fn.name])
         if c is not None and (target in c.inline or qual in c.inline or fn.name in c.inline):
             self.inlined.append((target, extract.source_hash(mod, fn)))
             decos = [d.id for d in fn.decorator_list if isinstance(d, ast.Name)]
@@ -1657,6 +1672,7 @@ class Interp:
         if a.returns is not None:
             from .verify import instantiate
             res = instantiate(self, a.returns, ctx.fresh_name('ret'), {}, self.sizes)
+            ctx.aux.append((ftxt, res))
         cenv2 = self.clause_env(env)
         for i, v in enumerate(args):
             cenv2['arg%d' % i] = v
@@ -1950,4 +1966,4 @@ BUILTINS = {'len', 'range', 'isinstance', 'abs', 'min', 'max', 'float', 'int', '
             'getattr', 'hasattr', 'type', 'repr', 'id', 'callable', 'reversed', 'slice', 'iter',
             'next', 'frozenset', 'complex', 'round', 'divmod', 'issubclass', 'setattr', 'map',
             'old', 'implies', 'iff', 'ite', 'Sum', 'is_none', 'is_inf', 'is_nan', 'same_object',
-            'arr_eq', 'ghost', 'fp_finite', 'is_view', 'is_scalar', 'is_vector', 'approx'}
+            'arr_eq', 'ghost', 'fp_finite', 'is_view', 'is_scalar', 'is_vector', 'approx', 'same_fp', 'same_fp_bool'}
